@@ -505,6 +505,51 @@ fn c07_case(seed: u64, cx: &mut Ctx) -> (Vec<Failure>, bool, u64) {
 /// T1 holds a write transaction; T2 calls write_tx() on another thread (blocks); T1 increments and
 /// commits; T2 increments and commits; the counter must be 2.  (If T2 is slow to start it simply
 /// does not block; that cannot produce a false alarm.)
+/// C07, thread schedules: the validation of a commit and the application of its writes are one step
+/// (`Oracle::with_commit` holds the commit mutex across both).  A write skew on two threads: T1 is held at the
+/// `write.begin` pause point inside its commit (validated, not yet applied); T2's commit must wait for it, and is
+/// then refused.  If T2 gets through, both commit on the same stale observation.
+fn commit_overlap_probe() -> Option<Failure> {
+    use std::sync::atomic::{AtomicBool, Ordering};
+    use std::sync::Arc;
+    static PARKED: AtomicBool = AtomicBool::new(false);
+    static GO: AtomicBool = AtomicBool::new(false);
+    let scratch = Scratch::new("otx");
+    let db = OptimisticTxDatabase::builder(scratch.join("db")).worker_threads_unchecked(0).open().ok()?;
+    let ks = db.keyspace("acc", KeyspaceCreateOptions::default).ok()?;
+    ks.insert("x", "50").ok()?;
+    ks.insert("y", "50").ok()?;
+    PARKED.store(false, Ordering::Release); GO.store(false, Ordering::Release);
+    fjall::verif::pause::set(Some(Arc::new(|name: &'static str| {
+        if name == "write.begin" && std::thread::current().name() == Some("otx-t1") { PARKED.store(true, Ordering::Release); while !GO.load(Ordering::Acquire) { std::thread::sleep(std::time::Duration::from_millis(1)); } }
+    })));
+    let num = |v: Option<fjall::UserValue>| -> i64 { v.map(|x| String::from_utf8_lossy(&x).parse().unwrap_or(0)).unwrap_or(0) };
+    // both transactions observe x + y = 100 and withdraw 100 from a different account
+    let mut t1 = db.write_tx().ok()?;
+    let mut t2 = db.write_tx().ok()?;
+    let s1 = num(t1.get(&ks, "x").ok()?) + num(t1.get(&ks, "y").ok()?);
+    let s2 = num(t2.get(&ks, "x").ok()?) + num(t2.get(&ks, "y").ok()?);
+    if s1 >= 100 { t1.insert(&ks, "x", "-50"); }
+    if s2 >= 100 { t2.insert(&ks, "y", "-50"); }
+    let h1 = std::thread::Builder::new().name("otx-t1".into()).spawn(move || t1.commit().map(|r| r.is_ok())).ok()?;
+    let t0 = std::time::Instant::now();
+    while !PARKED.load(Ordering::Acquire) && t0.elapsed() < std::time::Duration::from_secs(30) { std::thread::sleep(std::time::Duration::from_millis(1)); }
+    let done2 = Arc::new(AtomicBool::new(false));
+    let d2 = done2.clone();
+    let h2 = std::thread::spawn(move || { let r = t2.commit().map(|r| r.is_ok()); d2.store(true, Ordering::Release); r });
+    std::thread::sleep(std::time::Duration::from_millis(150));
+    let overlapped = done2.load(Ordering::Acquire);
+    GO.store(true, Ordering::Release);
+    let r1 = h1.join().ok()?.ok()?;
+    let r2 = h2.join().ok()?.ok()?;
+    fjall::verif::pause::set(None);
+    let total = num(ks.get("x").ok()?) + num(ks.get("y").ok()?);
+    if overlapped || (r1 && r2) || total < 0 {
+        return Some(Failure { kind: "impl-vs-oracle", detail: format!("optimistic transactions, write skew on two threads: T1 held between its validation and the application of its writes; T2's commit completed meanwhile = {overlapped}; outcomes T1 committed = {r1}, T2 committed = {r2}; x + y = {total} (both read x + y = 100 and withdrew 100: at most one may commit)") });
+    }
+    None
+}
+
 fn single_writer_probe() -> Option<Failure> {
     let scratch = Scratch::new("sw");
     let db = SingleWriterTxDatabase::builder(scratch.join("db")).worker_threads_unchecked(0).open().ok()?;
@@ -559,6 +604,7 @@ fn main() {
     let mut hist = BTreeMap::new();
     let mut cases = 0;
     if mode == "c08" && replay.is_none() { if let Some(f) = single_writer_probe() { all.push((0, f)); } *hist.entry("single-writer-probe".to_string()).or_insert(0) += 1; }
+    if mode == "c07" && replay.is_none() { if let Some(f) = commit_overlap_probe() { all.push((0, f)); } *hist.entry("commit-overlap-probe".to_string()).or_insert(0) += 1; }
     for cs in seeds {
         let res = std::panic::catch_unwind(std::panic::AssertUnwindSafe(|| {
             let mut cx = Ctx { lean: &mut lean, hist: &mut hist, samples: &mut samples };
